@@ -63,7 +63,7 @@ impl Prop for C06 {
      additionally a cut strictly inside a mapped chunk; distinct by hash of the case JSON".into()
   }
   fn legs(&self, _tier: Tier) -> Vec<Leg<TreeCase>> {
-    vec![Leg { name: "composites", source: Cases::Generated(Box::new(strategy), 100_000, 3_000_000) }]
+    vec![Leg { name: "composites", source: Cases::Generated(Box::new(strategy), 400_000, 6_000_000) }]
   }
   fn check(&self, case: &TreeCase) -> CheckResult {
     let spec = &case.spec;
